@@ -119,7 +119,7 @@ def run_tlc(workdir, module, cfg, workers=NCPU, timeout=3600, env=None, simulate
             coverage=False, seed=None, deadlock=False, extra=None, heap="8g"):
     """Run TLC on <workdir>/<module>.tla with <cfg>; modules under /verif/spec are on the library path."""
     t0 = time.time()
-    cmd = ["java", "-XX:+UseSerialGC", "-Xmx" + heap, "-DTLA-Library=" + TLA_LIB, "-cp", JAR, "tlc2.TLC",
+    cmd = ["java", "-XX:+UseSerialGC", "-Xss64m", "-Xmx" + heap, "-DTLA-Library=" + TLA_LIB, "-cp", JAR, "tlc2.TLC",
            "-metadir", os.path.join(workdir, "meta-%s-%d" % (module, int(t0 * 1000) % 10 ** 9)), "-noGenerateSpecTE",
            "-workers", str(workers), "-config", cfg]
     if not deadlock:
@@ -250,7 +250,7 @@ def parse_tla_tuple(s):
 # --------------------------------------------------------------------------------------------
 # trace validation (function-level events; TLC is the judge)
 # --------------------------------------------------------------------------------------------
-def _validate_part(scratch, part, events, trace_module, cfg, workers, timeout, tag):
+def _validate_part(scratch, part, events, trace_module, cfg, workers, timeout, tag, _depth=0):
     path = scratch.path("%s-trace-%d.json" % (tag, part))
     with open(path, "w") as f:
         json.dump(events, f, separators=(",", ":"))
@@ -265,12 +265,25 @@ def _validate_part(scratch, part, events, trace_module, cfg, workers, timeout, t
     shutil.copy(os.path.join(SPEC, "trace", trace_module + ".tla"), os.path.join(wd, trace_module + ".tla"))
     r = run_tlc(wd, trace_module, cfgp, workers=workers, timeout=timeout,
                 env={"TRACE_FILE": path, "TRACE_CHUNK": str(chunk)}, heap="3g")
+    if r.error and ("Overflow when computing" in r.stdout or "StackOverflowError" in r.stdout) and _depth < 25:
+        # 32-bit arithmetic of the judge cannot hold this event: set it aside (verdict "skipped.range", counted in
+        # the evidence, never a violation) and judge the others again
+        ls = re.findall(r"^l = (\d+)", r.stdout[r.stdout.index("Error:"):], re.M)
+        if ls:
+            bad = int(ls[-1])
+            rest = events[:bad - 1] + events[bad:]
+            v, r2 = _validate_part(scratch, part, rest, trace_module, cfg, workers, timeout, tag, _depth + 1) if rest else ({}, r)
+            v[events[bad - 1]["id"]] = ["skipped.range"]
+            return v, r2
     if r.error or r.violated or r.rc != 0:
+        with open(os.path.join(VERIF, ".scratch", "last_tlc_error.log"), "w") as f:
+            f.write(r.stdout)
         raise MachineryError("trace validation (%s): rc=%s violated=%s %s\n%s" % (trace_module, r.rc, r.violated, r.error, r.stdout[-3000:]))
     verdicts = {}
     # workers print concurrently and lines may interleave: scan the whole output by pattern, not line by line
-    for m in _RE_VERDICT.finditer(r.stdout):
-        verdicts[int(m.group(1))] = sorted(re.findall(r'"([^"]*)"', m.group(2)))
+    for j in r.json_lines:
+        if "V" in j:
+            verdicts[int(j["V"])] = sorted(j["c"])
     if len(verdicts) != n or r.distinct != n + 1:
         raise MachineryError("trace validation (%s): %d events, %d verdicts, %d states" % (trace_module, n, len(verdicts), r.distinct))
     return verdicts, r
@@ -288,8 +301,7 @@ def validate_events(scratch, events, trace_module="Trace_Fn", cfg=None, workers=
         e["id"] = i + 1
     t0 = time.time()
     nparts = max(1, min(workers, (len(events) + per_part - 1) // per_part))
-    size = (len(events) + nparts - 1) // nparts
-    parts = [events[i:i + size] for i in range(0, len(events), size)]
+    parts = [events[k::nparts] for k in range(nparts)]      # round-robin: expensive events are spread over the parts
     w = max(1, workers // len(parts))
     from concurrent.futures import ThreadPoolExecutor
     with ThreadPoolExecutor(len(parts)) as ex:
